@@ -1,5 +1,6 @@
 SPECIFICATION Spec
 CONSTANTS MaxToks = 5
+          BigAlphabet = FALSE
           Export = FALSE
 INVARIANT Bounded
 INVARIANT DeclaredFits
